@@ -225,7 +225,11 @@ CLI_TESTS = {
     # a needs b unless c is gone
     "chain": "lambda d: b'a\\n' in d and (b'b\\n' in d or b'c\\n' not in d)",
 }
-CLI_FILES = {"open-close": b"open\nkeep\nclose\n", "parity": b"x\ny\nx\nx\nz\nx\n", "chain": b"c\nb\na\nd\n"}
+CLI_FILES = {"open-close": b"open\nkeep\nclose\n", "parity": b"x\ny\nx\nx\nz\nx\n", "chain": b"c\nb\na\nd\n",
+             # ONE reducible atom, and the test also accepts the file without it
+             "single": b"only\n", "single-marked": b"keep\n// DDBEGIN\ndrop\n// DDEND\n"}
+CLI_TESTS["single"] = "lambda d: b'nothing' not in d"
+CLI_TESTS["single-marked"] = "lambda d: b'keep' in d"
 
 
 def cli_runs(ctx):
@@ -261,11 +265,13 @@ def cli_runs(ctx):
                     ctx.bump("cli-runs")
                     final = tc.read_bytes()
                     lines = final.splitlines(keepends=True)
+                    if tname == "single-marked":
+                        lines = [l for l in lines if l == b"drop\n"]     # the region is the one line between the markers
                     if rc != 0 or not fn(final):
                         ctx.fail("cli-result", f"main({argv[:-1]}) returned {rc} and left {final!r}", case)
                         continue
                     for i in range(len(lines)):
-                        less = b"".join(lines[:i] + lines[i + 1:])
+                        less = b"".join(lines[:i] + lines[i + 1:]) if tname != "single-marked" else final.replace(b"drop\n", b"", 1)
                         if fn(less):
                             ctx.fail("not-1-minimal", f"main({argv[:-1]}) ended with {final!r}: deleting line {i} gives {less!r}, which the test accepts", case)
                             break
